@@ -84,7 +84,13 @@ def run_property(pid, tier, seed):
         try:
             woven = set()
             broken = {}
+            allu = load_units(only_enabled=False)
+            needed = []
             for u, _ in kani_sel:
+                for dep in u.get('requires_units', []):
+                    if allu[dep] not in needed:
+                        needed.append(allu[dep])
+            for u in needed + [u for u, _ in kani_sel]:
                 if u['unit'] not in woven and u['unit'] not in broken:
                     try:
                         sess.weave(u)
@@ -376,6 +382,8 @@ def debug_unit(name, keep):
         return 0
     sess = kani_mod.KaniSession('unit-' + name)
     try:
+        for dep in u.get('requires_units', []):
+            sess.weave(load_units(only_enabled=False)[dep])
         sess.weave(u)
         hs = [ob['harness'] for ob in u['obligations']]
         parsed, out, dt, cmd = sess.run(u['crate'], hs, max(ob.get('timeout', 120) for ob in u['obligations']))
